@@ -1,7 +1,9 @@
 package checks
 
 import (
+	"bytes"
 	"fmt"
+	"io"
 	"net/http"
 	"strconv"
 	"strings"
@@ -23,14 +25,15 @@ type c22Req struct {
 	kind  string
 	gated bool // an RPC / control route that must sit behind the authenticator
 	// plan: how the authority answers this request
-	reject  *authw.ErrSpec // nil = accept
+	reject *authw.ErrSpec // nil = accept
 	// rejectWithCtx: the rejecting authenticator also returns a non-nil context
 	rejectWithCtx bool
-	noProof bool           // proof gate in require mode and the request carries no valid proof
-	ident   httpw.Ident
+	noProof       bool // proof gate in require mode and the request carries no valid proof
+	ident         httpw.Ident
 	// observations
 	authCalls int
 	provider  int
+	fetches   int // external-location fetches the server made on behalf of this request
 	resolver  int
 	rehydrate int
 	custom    int
@@ -60,7 +63,14 @@ type c22Stream struct {
 	dead   bool
 }
 
-type c22Provider struct{ gen func() (vgirpc.UploadURL, error) }
+type c22Provider struct {
+	gen func() (vgirpc.UploadURL, error)
+}
+
+// c22RoundTripper adapts a function to http.RoundTripper.
+type c22RoundTripper func(*http.Request) (*http.Response, error)
+
+func (f c22RoundTripper) RoundTrip(r *http.Request) (*http.Response, error) { return f(r) }
 
 func (p c22Provider) GenerateUploadURL(_ *arrow.Schema) (vgirpc.UploadURL, error) { return p.gen() }
 
@@ -73,6 +83,7 @@ func C22(e *simkern.Env) {
 	tp := e.Tape
 	prefix := []string{"", "/vgi", "/a/b"}[tp.Draw(3)]
 	fUpload := !tp.Bool(1, 4)
+	fExt := tp.Bool(1, 2)
 	fIntro := !tp.Bool(1, 4)
 	fSticky := !tp.Bool(1, 4)
 	fMeta := !tp.Bool(1, 4)
@@ -92,6 +103,7 @@ func C22(e *simkern.Env) {
 	}
 	e.Knob("prefix", prefix)
 	e.Knob("upload_provider", fUpload)
+	e.Knob("external_locations", fExt)
 	e.Knob("introspection", fIntro)
 	e.Knob("sticky", fSticky)
 	e.Knob("oauth_metadata", fMeta)
@@ -202,6 +214,15 @@ func C22(e *simkern.Env) {
 			}
 			return vgirpc.TokenIdentity{Principal: "subject", TokenName: "t"}, true, nil
 		}
+		// external locations: a continuation may carry its input as a pointer to
+		// a caller-chosen URL, which the server would have to fetch
+		extFetch := c22RoundTripper(func(r *http.Request) (*http.Response, error) {
+			sim.Y("external.fetch")
+			if rq := inFlight(); rq != nil {
+				rq.fetches++
+			}
+			return &http.Response{StatusCode: 404, Status: "404 Not Found", Body: io.NopCloser(bytes.NewReader([]byte("NoSuchKey"))), Header: http.Header{}, Request: r}, nil
+		})
 		rehydrate := func(state interface{}, method string) error {
 			sim.Y("rehydrate")
 			if rq := inFlight(); rq != nil {
@@ -228,6 +249,14 @@ func C22(e *simkern.Env) {
 					h.SetUploadURLProvider(provider)
 				}
 				h.SetRehydrateFunc(rehydrate)
+				if fExt {
+					cfg := vgirpc.DefaultExternalLocationConfig(&simStore{sim: sim, objects: map[string][]byte{}, perTask: map[string]int64{}})
+					cfg.ExternalizeThresholdBytes = 1 << 30
+					cfg.HTTPClient = &http.Client{Transport: extFetch}
+					cfg.MaxRetries = 1
+					cfg.RetryDelay = 1
+					srv.SetExternalLocation(cfg)
+				}
 				h.SetAuthenticate(authFn)
 				if fMeta {
 					if err := h.SetOAuthResourceMetadata(&vgirpc.OAuthResourceMetadata{Resource: "https://rpc.example.test" + prefix,
@@ -293,6 +322,8 @@ func C22(e *simkern.Env) {
 				rejectedGated++
 				sim.Probe("rejected-" + rq.kind)
 				switch {
+				case rq.fetches > 0:
+					e.Violate("work-for-rejected-request", rq.kind+":external-fetch", "%s; the server fetched the external location named by the request %d time(s)", desc, rq.fetches)
 				case rq.provider > 0:
 					e.Violate("work-for-rejected-request", rq.kind+":upload-provider", "%s", desc)
 				case rq.resolver > 0:
@@ -410,6 +441,14 @@ func C22(e *simkern.Env) {
 							input = []int64{st.nextIn}
 						}
 						req = hx.Req{Path: prefix + "/" + st.method + "/exchange", Body: httpw.ContBody(st.cursor, st.call, rq.kind == "cancel", input, false, hx.Meta{})}
+						if fExt && st.kind == "exchange" && rq.kind == "continuation" && tp.Bool(1, 3) {
+							// the input travels as an external-location pointer
+							sim.Fault("external-pointer-continuation")
+							in := hx.Int64Batch("x", input, false)
+							m := httpw.ContMeta(st.cursor, st.call, false, hx.Meta{}).Add(hx.KLocation, "https://objects.sim/in/"+ids)
+							req.Body = hx.RawRequestBytes(hx.PointerLike(in, hx.Meta{}), m)
+							in.Release()
+						}
 					case "upload-url":
 						req = hx.Req{Path: prefix + "/__upload_url__/init", Body: hx.RawRequestBytes(hx.Int64Batch("count", []int64{int64(1 + tp.Draw(3))}, false),
 							hx.M(hx.KMethod, "__upload_url__", hx.KReqVersion, "1"))}
@@ -550,12 +589,12 @@ func init() {
 	Registry["C22"] = &Info{
 		Run:   C22,
 		Level: "exploration",
-		Rule: "each run draws a server configuration (prefix, upload-URL provider, token introspection, sticky sessions, OAuth metadata, PKCE browser login, proof gate off/allow/require, CORS, 1-2 instances sharing a key with call caches {default,0,1}, batch limit) and 1-3 concurrent client tasks that walk every route kind (unary, __describe__, stream init, continuation and cancel with previously minted valid tokens, __upload_url__/init, introspection, preflight, health, OAuth metadata document, landing/describe/404 pages, two operator routes, session DELETE, login routes); for every request the tape decides whether the authority accepts (anonymous / alice / the introspector) or rejects, and how (error tree: AuthFailure with each reason, RpcError of seven types, AuthUnavailableError, foreign error, wrapped 0-2 deep; or a missing/forged proof under a require-mode gate); the authenticator, handlers, stream states, rehydrate callback, upload provider, token resolver and operator routes are harness code that yields, so requests interleave; each invocation is attributed to its request (script nonce, per-stream exclusive ownership, request marker, or the task whose ServeHTTP call is on the stack). distinct = distinct schedule/outcome fingerprint; non-trivial = at least one request was sent under a rejecting authority",
+		Rule:  "each run draws a server configuration (prefix, upload-URL provider, external locations — a third of the exchange continuations then carry their input as a pointer to a caller-chosen URL —, token introspection, sticky sessions, OAuth metadata, PKCE browser login, proof gate off/allow/require, CORS, 1-2 instances sharing a key with call caches {default,0,1}, batch limit) and 1-3 concurrent client tasks that walk every route kind (unary, __describe__, stream init, continuation and cancel with previously minted valid tokens, __upload_url__/init, introspection, preflight, health, OAuth metadata document, landing/describe/404 pages, two operator routes, session DELETE, login routes); for every request the tape decides whether the authority accepts (anonymous / alice / the introspector) or rejects, and how (error tree: AuthFailure with each reason, RpcError of seven types, AuthUnavailableError, foreign error, wrapped 0-2 deep; or a missing/forged proof under a require-mode gate); the authenticator, handlers, stream states, rehydrate callback, upload provider, token resolver and operator routes are harness code that yields, so requests interleave; each invocation is attributed to its request (script nonce, per-stream exclusive ownership, request marker, or the task whose ServeHTTP call is on the stack). distinct = distinct schedule/outcome fingerprint; non-trivial = at least one request was sent under a rejecting authority",
 		Real:  []string{"vgirpc.HttpServer (ServeHTTP, route table, authenticate, unary/stream/upload-url/introspection/sticky-delete/health/pages/OAuth handlers)", "vgirpc.ProofAuthenticate, ChainAuthenticate+CookieAuthenticate (PKCE)", "vgirpc.Server dispatch, token seal/open, call-state cache", "sticky-session reaper on the simulated clock"},
 		Stub:  []string{"authenticator (outcome from the tape)", "UploadURLProvider, TokenResolver, RehydrateFunc, operator routes (counting, yielding)", "scripted handlers and stream states", "HTTP transport (direct ServeHTTP call)", "load balancer (tape)"},
 		Quick: 1200, Thorough: 80000,
 		Warm:       warmHTTP,
-		FaultKinds: []string{"auth-unavailable", "auth-failure", "auth-rpcerror", "auth-foreign-error", "auth-reject-with-context", "proof-gate-reject"},
+		FaultKinds: []string{"auth-unavailable", "auth-failure", "auth-rpcerror", "auth-foreign-error", "auth-reject-with-context", "proof-gate-reject", "external-pointer-continuation"},
 		Assumptions: []string{
 			"'rejects a request' is decided by the fault plan: a request for which the configured authenticator would return an error; a route that never consults the authenticator is judged by the same plan",
 			"for __describe__ (no callback to observe) 'performs no work' is read as 'is not answered with a 2xx'; the same is required of every rejected request on a gated route",
